@@ -215,7 +215,8 @@ def classify(arena, act, args, src, code, obs, bad_fields=None):
 def run_arena(ctx, arena, tag, vin=None, trace=None, trace_n=0, scripts=None, wait_ms=400):
     a = ARENAS[arena]
     vout = ctx.path("g08_out_%s_%s.ndjson" % (arena, tag))
-    env = {"VERIF_OUT": vout, "VERIF_G08_WAIT_MS": str(wait_ms)}
+    env = {"VERIF_OUT": vout, "VERIF_G08_WAIT_MS": str(wait_ms), "VERIF_G08_BUDGET_S": "150" if ctx.quick else "900",
+           "VERIF_G08_HANG_S": "20"}
     if vin:
         env["VERIF_IN"] = vin
     if trace:
@@ -229,6 +230,11 @@ def run_arena(ctx, arena, tag, vin=None, trace=None, trace_n=0, scripts=None, wa
         rc, out = ctx.go_test(PKG, FILES, "^%s$" % a["test"], env=env, timeout=1500, go_timeout="20m")
         rows = vlib.read_ndjson(vout)
         if rc == 0 or any(r.get("kind") == "fatal" for r in rows):
+            return rows
+        if any(r.get("kind") == "summary" and r["stats"].get("hung") for r in rows) or (
+                scripts is not None and any(r.get("kind") == "script" and r.get("code") == -5 for r in rows)):
+            # a request that was never answered: the harness reported it and stopped; what
+            # the abandoned goroutine does to the process afterwards does not matter
             return rows
         # the arenas pick loopback ports: another process may take one first
         if attempt == 1 and ("address already in use" in out or "occupying" in out):
@@ -302,8 +308,6 @@ def post(ctx, arena, prepared, rows, trace, trace_n, guard):
     if stats.get("steps", 0) == 0:
         raise vlib.Inconclusive("arena %s executed no step" % arena)
     missed = summ.get("missed") or []
-    if len(missed) > len(vecs) // 3:
-        raise vlib.Inconclusive("arena %s could not reach %d of %d vectors" % (arena, len(missed), len(vecs)))
     bads = [r for r in rows if r.get("kind") in ("bad", "badfields")]
 
     # ---- direction A: group the disagreeing steps
@@ -442,6 +446,10 @@ def post(ctx, arena, prepared, rows, trace, trace_n, guard):
         "trace_groups_reproduced": trace_reproduced, "vacuity_guards": guard, "samples": samples,
         "replayed": [w for w in vecs if w["want"] and w["id"] not in set(missed)],
     }
+    if len(missed) > len(vecs) // 3:
+        cov["inconclusive"] = "arena %s could not execute %d of %d vectors%s" % (
+            arena, len(missed), len(vecs), " (a request was never answered)" if stats.get("hung") else
+            " (out of time)" if stats.get("out_of_time") else "")
     return cov, reports
 
 
@@ -513,6 +521,10 @@ def run(ctx):
         replayed += cov_a.pop("replayed")
         samples += cov_a.pop("samples")
     per = {arena: results[arena][0] for arena in ARENAS}
+    for c in per.values():
+        if c.get("inconclusive"):
+            # reproduced violations, if any, are reported first by vlib
+            raise vlib.Inconclusive(c["inconclusive"])
     exhaustive = all(c["vectors_missed"] == 0 and c["vectors_selected"] == c["vectors"] for c in per.values())
     cov = {
         "traces_validated_against_impl": sum(c["behaviours"] + c["trace_behaviours"] for c in per.values()),
